@@ -143,7 +143,15 @@ def message(rng, K):
             m += body(rng, K, rng.randrange(0, 4), style, hi)
         r = rng.random()
         if r < 0.7:
-            m += b'--' + b + b'--' + eol(rng, style) + body(rng, K, rng.randrange(0, 2), style, rng.choice([0, hi]), longok=False)
+            # the epilogue: now and then with an over-long line, in front of or behind its first empty line (seeded change
+            # c06-m9: need_recode() calls a long line in front of the first empty line a long *header* line)
+            m += b'--' + b + b'--' + eol(rng, style)
+            if rng.random() < 0.25:
+                m += rng.choice([b'', eol(rng, style), b'short' + eol(rng, style)])
+                m += text_line(rng, rng.choice([998, 999, 1000, 1210]), hi=0, nul=False) + eol(rng, style)
+                m += body(rng, K, rng.randrange(0, 2), style, rng.choice([0, hi]), longok=True)
+            else:
+                m += body(rng, K, rng.randrange(0, 2), style, rng.choice([0, hi]), longok=False)
         elif r < 0.8:
             m += b'--' + b + b'--'
         elif r < 0.9:
